@@ -810,7 +810,10 @@ def c09(tier):
 def c18_cfgs(n):
     # every view over Echo; every view over an inner view that withholds values at the start (Sma) and one that can withhold
     # them for ever (LaguerreRSI on a constant stream reports nothing)
-    return [c for c in catalogue(n, positive=True)] + chains2(catalogue(n), sma(n)) + chains2(catalogue(n), {"k": "LaguerreRSI", "n": max(n, 2)})
+    # (NoiseEliminationTechnology(1) never has a pair to compare; Roc reports nothing while the oldest value is 0, LaguerreRSI
+    # nothing while its lags have not moved)
+    return ([c for c in catalogue(n, positive=True)] + chains2(catalogue(n), sma(n)) + chains2(catalogue(n), {"k": "LaguerreRSI", "n": max(n, 2)})
+            + chains2(catalogue(n), {"k": "NoiseEliminationTechnology", "n": 1}) + chains2(catalogue(n), {"k": "Roc", "n": 2}))
 
 @check("C18")
 def c18(tier):
@@ -819,7 +822,7 @@ def c18(tier):
     for n in ((1, 2, 3, 4, 5, 7, 8, 16, 33) if tier == "quick" else (1, 2, 3, 4, 5, 6, 7, 8, 12, 16, 33, 64)):
         for cfg in c18_cfgs(n):
             L0 = 8 * (2 * n + 4)
-            for period, ramp in (([12, 15, 11, 18, 18, 9, 14], 0), ([7], 0), ([5, 5, 9, 9, 9, 2], 0),      # varied, constant, ties
+            for period, ramp in (([12, 15, 11, 18, 18, 9, 14], 0), ([7], 0), ([0], 0), ([5, 5, 9, 9, 9, 2], 0),      # varied, constant, zero, ties
                                  ([100, 130, 110, 150, 120], 8), ([100, 80, 95, 60], -1)):         # rising zigzag (new highs for ever), falling
                 exps.append({"cfg": cfg, "unit": 10, "marks": [L0, 4 * L0, 16 * L0 if tier == "quick" else 256 * L0], "period": period, "ramp": ramp})
     # model level: the machines' buffers stay under CellBound along constant and two-symbol streams four windows long
